@@ -23,19 +23,24 @@ def check(ctx):
     cases = []
     n = 150 if ctx.quick else 2500
     small = list(range(0, 12))
-    big = [2 ** 128 + i for i in range(1, 40)] + [2 ** 200 + 7, 2 ** 255 + 3, 1000, 65536]
+    big = [2 ** 128 + i for i in range(1, 40)] + [2 ** 200 + 7, 2 ** 255 + 3, 1000, 65536] + gen.hash_lookalikes()[:6] + [480, 581]
     for _ in range(n):
         na, nb = rng.randrange(1, 5), rng.randrange(1, 5)
         slots = rng.sample(small + big[:6], na + nb)
         va = gen.random_vars(rng, na, slots=slots[:na])
         vb = gen.random_vars(rng, nb, slots=slots[na:])
         disp = rng.choice(["selector", "chain"])
-        ca = gen.compile_layout(va, rng, dispatcher=disp)
-        cb = gen.compile_layout(vb, rng, dispatcher=disp)
-        cab = gen.compile_layout(va + vb, rng, dispatcher=disp)
         # injective renaming of A's slots (keeps away from A's own numbers to stay injective)
         targets = rng.sample([t for t in small + big if t not in slots[:na]], na)
         rho = dict(zip(slots[:na], targets))
+        for v in va:
+            # the folded-constant form of an array's data start (PUSH32 keccak(slot)) is an idiom only for slots in the
+            # hash table: a renaming out of the table must start from the run-time form
+            if v.kind == "dynarray" and v.style == "folded" and rho[v.slot] >= 10000:
+                v.style = "shl"
+        ca = gen.compile_layout(va, rng, dispatcher=disp)
+        cb = gen.compile_layout(vb, rng, dispatcher=disp)
+        cab = gen.compile_layout(va + vb, rng, dispatcher=disp)
         var_r = [gen.Var(v.kind, rho[v.slot], v.access, keys=v.keys, value=v.value, fields=v.fields, style=v.style, srcs=v.srcs) for v in va]
         car = gen.compile_layout(var_r, rng, dispatcher=disp)
         cases.append((ca, cb, cab, car, rho))
